@@ -60,7 +60,8 @@ struct Acc {
     counters: BTreeMap<String, u64>,
     notes: BTreeMap<String, u64>,
     sim_time_ns: u128,
-    rechecks: Vec<(String, u64, u64)>,
+    /// (kind, index, event-log hash, the run ended in a violation)
+    rechecks: Vec<(String, u64, u64, bool)>,
     first_nontrivial: Vec<Value>,
 }
 
@@ -180,11 +181,11 @@ pub fn worker(spec: &'static PropSpec, tier: Tier, seed: u64, stripe: usize, job
             RunId::Enumerated { index } => ("enumerated", *index),
         };
         if *recheck {
-            a.rechecks.push((k.to_string(), i, o.log_hash));
+            a.rechecks.push((k.to_string(), i, o.log_hash, matches!(o.verdict, Verdict::Violation { .. })));
             continue;
         }
         if (i / jobs as u64) % 97 == 3 {
-            a.rechecks.push((k.to_string(), i, o.log_hash));
+            a.rechecks.push((k.to_string(), i, o.log_hash, matches!(o.verdict, Verdict::Violation { .. })));
         }
         a.runs += 1;
         a.sim_time_ns += u128::from(o.sim_time_ns);
@@ -517,7 +518,7 @@ pub fn check(spec: &'static PropSpec, tier: Tier) -> i32 {
     let mut counters: BTreeMap<String, u64> = BTreeMap::new();
     let mut notes: BTreeMap<String, u64> = BTreeMap::new();
     let mut sim_time_ns: u128 = 0;
-    let mut rechecks: BTreeMap<(String, u64), Vec<u64>> = BTreeMap::new();
+    let mut rechecks: BTreeMap<(String, u64), Vec<(u64, bool)>> = BTreeMap::new();
     let mut violations: Vec<Value> = Vec::new();
     let mut sample_ids: Vec<Value> = Vec::new();
     for r in &results {
@@ -539,7 +540,7 @@ pub fn check(spec: &'static PropSpec, tier: Tier) -> i32 {
         }
         sim_time_ns += r["sim_time_ns"].as_str().and_then(|s| s.parse::<u128>().ok()).unwrap_or(0);
         for rc in r["rechecks"].as_array().into_iter().flatten() {
-            rechecks.entry((rc[0].as_str().unwrap_or("").to_string(), rc[1].as_u64().unwrap_or(0))).or_default().push(rc[2].as_u64().unwrap_or(0));
+            rechecks.entry((rc[0].as_str().unwrap_or("").to_string(), rc[1].as_u64().unwrap_or(0))).or_default().push((rc[2].as_u64().unwrap_or(0), rc[3].as_bool().unwrap_or(false)));
         }
         for v in r["violations"].as_array().into_iter().flatten() {
             violations.push(v.clone());
@@ -551,11 +552,19 @@ pub fn check(spec: &'static PropSpec, tier: Tier) -> i32 {
         }
     }
     let mut recheck_pairs = 0u64;
+    let mut nondeterministic_violations = 0u64;
     for ((k, i), hs) in &rechecks {
         if hs.len() >= 2 {
             recheck_pairs += 1;
-            if hs.iter().any(|h| *h != hs[0]) {
-                harness_error = Some(format!("nondeterminism: run {k}#{i} produced different event logs in two workers ({hs:?})"));
+            if hs.iter().any(|h| h.0 != hs[0].0) {
+                if hs.iter().any(|h| h.1) {
+                    // a VIOLATING run that differs between two workers: the code under test reached a state
+                    // whose continuation depends on something outside the simulation (which of two readers
+                    // the kernel wakes first, say). That is reported with the violation, not as a harness error.
+                    nondeterministic_violations += 1;
+                } else {
+                    harness_error = Some(format!("nondeterminism: run {k}#{i} produced different event logs in two workers ({:?})", hs.iter().map(|h| h.0).collect::<Vec<_>>()));
+                }
             }
         }
     }
@@ -658,6 +667,7 @@ pub fn check(spec: &'static PropSpec, tier: Tier) -> i32 {
             "faults_and_probes_fired": counters,
             "observations_not_violations": notes,
             "determinism_rechecks": recheck_pairs,
+            "violating_runs_that_differed_between_two_workers": nondeterministic_violations,
             "components": spec.components.iter().map(|(k, v)| json!({"component": k, "status": v})).collect::<Vec<_>>(),
             "violation_classes": classes,
             "known_finding_hits": known_count,
